@@ -10,7 +10,7 @@ CONSTANTS
   Dump = TRUE
 INVARIANT TypeOK
 INVARIANT RefSound
-INVARIANT ImplDiffersOnlyWhereTagged
+INVARIANT ImplAgrees
 INVARIANT Publish
 INVARIANT CountErr
 CHECK_DEADLOCK FALSE
